@@ -550,7 +550,8 @@ def monitorPacing (evs : List Ev) (peer : String) : List String := Id.run do
       let dist (x : Nat) := if x ≤ e.t then e.t - x else x - e.t
       match (dials.map (·.t)).foldl (fun (best : Option Nat) t =>
           match best with | some b => if dist t < dist b then some t else some b | none => some t) none with
-      | some t => if dist t < 50 * ms then min t e.t else e.t
+      -- (only a dial close enough to be the one of THIS exit: well within one idle-hold time of the line)
+      | some t => if dist t < min (50 * ms) (ih / 2) then min t e.t else e.t
       | none => e.t
     for (e1, e2) in exits none outT do
       if tExit e2 + eps < tExit e1 + ih then
